@@ -55,3 +55,28 @@ func VerifC03_Adversarial(cs int) {
 	VsReach("adversarial-decoded")
 	vCheckTotality(o, invalidIndents, text)
 }
+
+// VerifC03_LongLevels: level numbers of 2, 3, 18, 19, 20 and 21 digits, every digit symbolic (so every
+// number up to and beyond the 64-bit range, leading zeros included), as the first line, below an open
+// record and below a nested line. cs%4: options, cs/4%6: number of digits, cs/24%3: position.
+func VerifC03_LongLevels(cs int) {
+	multiLine := cs%2 == 1
+	invalidIndents := cs/2%2 == 1
+	digits := []int{2, 3, 18, 19, 20, 21}[cs/4%6]
+	lv := VsBytes("lv", digits, '0', '9')
+	var text string
+	switch cs / 24 % 3 {
+	case 0:
+		text = lv + " NAME x\n0 TRLR\n"
+	case 1:
+		text = "0 @I1@ INDI\n" + lv + " NAME x\n1 SEX M\n"
+	default:
+		text = "0 @I1@ INDI\n1 BIRT\n2 DATE 1900\n" + lv + " PLAC x\n"
+	}
+	o := vDecode(text, multiLine, invalidIndents)
+	VsObserve(text)
+	VsObserve(o.panicked)
+	VsObserve(o.err != nil)
+	VsReach("long-level-decoded")
+	vCheckTotality(o, invalidIndents, text)
+}
